@@ -50,13 +50,13 @@ impl Property for C01 {
     }
     fn cases(&self, tier: Tier) -> u64 {
         match tier {
-            Tier::Quick => 60_000,
+            Tier::Quick => 250_000,
             Tier::Thorough => 30_000_000,
         }
     }
     fn min_nontrivial(&self, tier: Tier) -> u64 {
         match tier {
-            Tier::Quick => 20_000,
+            Tier::Quick => 80_000,
             Tier::Thorough => 8_000_000,
         }
     }
